@@ -127,10 +127,16 @@ Proof.
   intros H. unfold rep_fin. destruct mn as [[|m]|]; auto. cbn in H.
   destruct (Nat.leb_spec (S m) (length acc)); auto. lia.
 Qed.
-Lemma rep_fin_fail mn s acc : ~ mnv0 mn <= length acc -> rep_fin mn s acc = s /\ mn <> None /\ mn <> Some 0.
+Lemma rep_fin_fail mn s acc : ~ mnv0 mn <= length acc -> status s = false -> rep_fin mn s acc = s /\ mn <> None /\ mn <> Some 0.
 Proof.
-  intros H. unfold rep_fin. destruct mn as [[|m]|]; cbn in H; try lia.
-  destruct (Nat.leb_spec (S m) (length acc)); [lia|]. repeat split; congruence.
+  intros H Hs. unfold rep_fin. destruct mn as [[|m]|]; cbn in H; try lia.
+  destruct (Nat.leb_spec (S m) (length acc)); [lia|]. rewrite Hs. repeat split; congruence.
+Qed.
+Lemma rep_fin_underflow mn s acc : ~ mnv0 mn <= length acc -> status s = true ->
+  rep_fin mn s acc = upd s false (VErr 10) (pos s) /\ mn <> None /\ mn <> Some 0.
+Proof.
+  intros H Hs. unfold rep_fin. destruct mn as [[|m]|]; cbn in H; try lia.
+  destruct (Nat.leb_spec (S m) (length acc)); [lia|]. rewrite Hs. repeat split; congruence.
 Qed.
 
 Lemma rep_ok : forall k e (mn : bound) (mnv mxv : option nat) s acc, W e -> sub E (locals s) ->
@@ -179,10 +185,59 @@ Proof.
         assert (Ex : (mnv0 mnv <=? length acc) = true) by (apply Nat.leb_le; auto). unfold mnv0 in Ex. rewrite Ex.
         cbn. repeat split; auto; try apply Hs2. subst s2. destruct (part e) eqn:Ep; cbn; auto.
       * assert (Ex : (mnv0 mnv <=? length acc) = false) by (apply Nat.leb_gt; auto). unfold mnv0 in Ex. rewrite Ex.
-        destruct (rep_fin_fail (if mn_zero mn then None else mnv) s2 acc) as (A & B & C); [rewrite Hfin; lia|].
+        destruct (rep_fin_fail (if mn_zero mn then None else mnv) s2 acc) as (A & B & C); [rewrite Hfin; lia|apply Hs2|].
         rewrite A. destruct Hs2 as (S1 & S2). repeat split; auto.
         -- destruct (mn_zero mn); auto. congruence.
         -- intros Hpe _. subst s2. rewrite Hpe. auto.
+Qed.
+
+(* run-time bounds with lower > upper: the loop takes at most `upper` elements and the list fails *)
+Lemma rep_fin_short mn s acc : ~ mnv0 mn <= length acc ->
+  status (rep_fin mn s acc) = false /\ pos (rep_fin mn s acc) = pos s /\ locals (rep_fin mn s acc) = locals s.
+Proof.
+  intros H. destruct (status s) eqn:Hs.
+  - destruct (rep_fin_underflow mn s acc H Hs) as (-> & _). cbn. auto.
+  - destruct (rep_fin_fail mn s acc H Hs) as (-> & _). auto.
+Qed.
+Lemma rep_conflict_ok : forall k e (mn : bound) (mnv : option nat) (m : nat) s acc, W e -> sub E (locals s) ->
+  m < mnv0 mnv -> mn_zero mn = false -> length acc <= m ->
+  match rep_spec pg k e mnv (Some m) (pos s) acc, rep_loop true ex k e mn mnv (Some m) s acc with
+  | Fuel, OutOfFuel => True
+  | Raise, _ => True
+  | Match _ _, Done s' | Fails, Done s' =>
+      status s' = false /\ sub E (locals s') /\ (part e = false -> mnv0 mnv <= S (length acc) -> pos s' = pos s)
+  | _, _ => False end.
+Proof.
+  assert (Hhead : forall mn mnv m s acc, m < mnv0 mnv -> mn_zero mn = false -> sub E (locals s) -> length acc <= m ->
+            let s' := rep_fin (if mn_zero mn then None else mnv) s acc in
+            status s' = false /\ sub E (locals s') /\ pos s' = pos s).
+  { intros mn mnv m s acc Hm Hz HS Hl. rewrite Hz.
+    destruct (rep_fin_short mnv s acc ltac:(lia)) as (A & B & C). cbn zeta. rewrite A, B, C. auto. }
+  induction k as [|k IHk]; intros e mn mnv m s acc HWe HS Hm Hz Hl.
+  - cbn [rep_spec rep_loop andb]. destruct (at_max (Some m) (length acc)) eqn:Hmax; [|exact I].
+    destruct (Hhead mn mnv m s acc Hm Hz HS Hl) as (A & B & C). cbn. auto.
+  - cbn [rep_spec rep_loop andb]. destruct (at_max (Some m) (length acc)) eqn:Hmax.
+    { destruct (Hhead mn mnv m s acc Hm Hz HS Hl) as (A & B & C). cbn. auto. }
+    assert (Hlt : length acc < m).
+    { unfold at_max in Hmax. apply Nat.eqb_neq in Hmax. lia. }
+    cases e s HWe HS.
+    + subst v p'.
+      replace (negb (always e) && negb (status s1)) with false by (rewrite H1, andb_false_r; auto).
+      destruct (at_max (Some m) (length (result s1 :: acc))) eqn:Em.
+      * rewrite rep_spec_at_max by exact Em.
+        destruct (Hhead mn mnv m s1 (result s1 :: acc) Hm Hz H4 ltac:(cbn [length]; lia)) as (A & B & C).
+        cbn. repeat split; auto. intros _ Hle. cbn [length] in *. lia.
+      * specialize (IHk e mn mnv m s1 (result s1 :: acc) HWe H4 Hm Hz ltac:(cbn [length]; lia)).
+        destruct (rep_spec pg k e mnv (Some m) (pos s1) (result s1 :: acc)) as [| | |v' q'],
+                 (rep_loop true ex k e mn mnv (Some m) s1 (result s1 :: acc)) as [s'| |]; auto;
+          destruct IHk as (A & B & C); repeat split; auto; intros _ Hle; lia.
+    + replace (negb (always e) && negb (status s1)) with true by (rewrite H1, H2; auto).
+      set (s2 := if part e then upd s1 (status s1) (result s1) (pos s) else s1).
+      assert (Hs2 : status s2 = false /\ sub E (locals s2)) by (subst s2; destruct (part e); cbn; auto).
+      assert (Ex : (mnv0 mnv <=? length acc) = false) by (apply Nat.leb_gt; lia). unfold mnv0 in Ex. rewrite Ex.
+      destruct Hs2 as (S1 & S2).
+      destruct (Hhead mn mnv m s2 acc Hm Hz S2 Hl) as (A & B & C). cbn zeta in A, B, C.
+      repeat split; auto. intros Hpe _. rewrite C. subst s2. rewrite Hpe. auto.
 Qed.
 
 (* ---------- Skip ---------- *)
@@ -700,10 +755,22 @@ Proof.
   - (* Rep *) cbn [wf] in Hwf. pose proof Hwf as Hwe.
     assert (Hgen : forall mnv mxv, bound_val E mn = Some mnv -> bound_val E mx = Some mxv ->
               agree E (Rep e mn mx) (pos s)
-                    (if bounds_conflict mnv mxv then Raise else rep_spec (PEG n E) n e mnv mxv (pos s) [])
+                    (if bounds_conflict mnv mxv
+                     then match rep_spec (PEG n E) n e mnv mxv (pos s) [] with Match _ _ => Fails | other => other end
+                     else rep_spec (PEG n E) n e mnv mxv (pos s) [])
                     (rep_loop true (EXEC n) n e mn mnv mxv s [])).
     { intros mnv mxv Emn Emx.
-      destruct (bounds_conflict mnv mxv) eqn:Ebc; [exact I|].
+      destruct (bounds_conflict mnv mxv) eqn:Ebc.
+      { (* lower bound above the upper bound (run-time values): the list fails *)
+        destruct mxv as [m|]; [|discriminate]. cbn in Ebc. apply Nat.ltb_lt in Ebc.
+        assert (Hz : mn_zero mn = false).
+        { destruct mn as [|[|a]|x]; cbn in *; auto; inversion Emn; subst; cbn in Ebc; lia. }
+        pose proof (rep_conflict_ok (PEG n E) (EXEC n) E (wf sc) IHl n e mn mnv m s [] Hwe HS Ebc Hz ltac:(cbn; lia)) as H.
+        unfold agree.
+        destruct (rep_loop true (EXEC n) n e mn mnv (Some m) s []), (rep_spec (PEG n E) n e mnv (Some m) (pos s) []) as [| | |v p']; auto;
+          destruct H as (A & B & C); cbn [always partial]; rewrite Hz; repeat split; auto;
+          cbn [negb andb]; destruct mn as [|[|[|a]]|x]; cbn [mn_one]; try discriminate;
+          intros Hpe; apply C; auto; cbn in Emn; inversion Emn; subst; cbn; lia. }
       assert (Hmm : forall m, mxv = Some m -> mnv0 mnv <= m).
       { intros m ->. cbn in Ebc. apply Nat.ltb_ge in Ebc. exact Ebc. }
       assert (Hz : mn_zero mn = true -> mnv0 mnv = 0).
